@@ -106,23 +106,19 @@ def analyse(tr, kinds, now=None):
     picks = [e for e in tr if e["ev"] == "pv.pick"]
     if not enq or not picks:
         return "busy"
-    sigs = [e for e in tr if e["ev"] == "pv.signal" and not e["immediately"]]
-    if len(sigs) < len(enq):
-        return "busy"
     E, P = enq[-1], picks[-1]
-    v = P["version"]
-    started = any(e["ev"] == "pv.start" and e["version"] == v for e in tr)
-    exited = any(e["ev"] == "pv.exit" and e["version"] == v for e in tr)
-    killed = any(e["ev"] == "pv.kill" and e["version"] == v for e in tr)
-    if started and not exited and killed and now is not None:
-        seen = [e.get("_t", now) for e in tr if e["ev"] == "pv.kill" and e["version"] == v][0]
-        if now - seen > HUNG_AFTER:
-            return "hung"
+    after = [e for e in tr if e["seq"] > P["seq"]]          # what the previewer did with the request taken last
+    start = [e for e in after if e["ev"] == "pv.start"]
+    started = bool(start)
+    exited = any(e["ev"] == "pv.exit" for e in after)
+    kills = [e for e in after if e["ev"] == "pv.kill"]
+    killed = bool(kills)
+    if started and not exited and killed and now is not None and now - kills[0].get("_t", now) > HUNG_AFTER:
+        return "hung"
     if started and not exited and not killed:
-        st_seq = [e["seq"] for e in tr if e["ev"] == "pv.start" and e["version"] == v][0]
-        if any(e["ev"] == "pv.signal" and e["sent"] and e["seq"] > st_seq for e in tr):
+        if any(e["ev"] == "pv.signal" and e["sent"] and e["seq"] > start[0]["seq"] for e in after):
             return "busy"                          # a signal was taken after the start: the watcher is about to act on it
-    shown = [e for e in tr if e["ev"] == "pv.display" and e["version"] == v]
+    shown = [e for e in after if e["ev"] == "pv.display" and e["version"] == P["version"]]
     endless = kind_of(kinds, P["item"]) in ENDLESS
     if P["seq"] < E["seq"]:                       # the last announcement has not been taken
         if started and not exited and not killed and endless:
@@ -212,6 +208,10 @@ def read_log(path):
 
 
 # ------------------------------------------------------------------ one session
+class Unsettled(Exception):
+    """The session did not reach a state the driver recognises as quiescent (re-run once before it is recorded)."""
+
+
 class Plan:
     """What a session does.  steps: list of dicts
          {"post": body}                      POST an action chain
@@ -231,7 +231,7 @@ def item_text(i):
     return "ab%d" % i
 
 
-def run_session(ctx, fzf, plan):
+def run_session(ctx, fzf, plan, record_unsettled=False):
     sid = "c20x%dx%d" % (os.getpid(), plan.sid)
     kinds = plan.kinds
     cmds = {tag: command(tag, kinds, plan.lead) for tag in TEMPLATES}
@@ -282,14 +282,14 @@ def run_session(ctx, fzf, plan):
                 n0 = st.get("n0")
                 want = (ix.count(st["until"]) if n0 is None else n0) + 1
                 try:
-                    ix.wait(lambda: ix.counts.get(st["until"], 0) >= want, 2 if st.get("soft") else 120, st["until"])
+                    ix.wait(lambda: ix.counts.get(st["until"], 0) >= want, 2 if st.get("soft") else 30, st["until"])
                 except Infra:
-                    if not st.get("soft") or s.exited():
-                        raise
+                    if s.exited():
+                        raise                      # (otherwise: go on, the recorded trace is judged as it is)
             else:
                 post(st["post"])
         if plan.observe and not gone:
-            deadline = time.time() + 150
+            deadline = time.time() + (60 if record_unsettled else 120)
             while True:
                 markers += 1
                 post(MARKER)
@@ -297,8 +297,11 @@ def run_session(ctx, fzf, plan):
                 state = analyse(ix.pv, kinds, time.time())
                 if state == "busy":
                     if time.time() > deadline:
-                        raise Infra("session %s never became quiescent; last preview events: %s" % (
-                            plan.label, json.dumps([{k: v for k, v in e.items() if k not in ("command", "template")} for e in ix.pv[-8:]])[:1500]))
+                        if not record_unsettled:
+                            raise Unsettled("session %s never became quiescent; last preview events: %s" % (
+                                plan.label, json.dumps([{k: v for k, v in e.items() if k not in ("command", "template", "_t")} for e in ix.pv[-8:]])[:1500]))
+                        state = "unsettled"
+                if state == "busy":
                     n = len(ix.pv)
                     try:
                         ix.wait(lambda: len(ix.pv) > n, 5, "progress")
@@ -321,8 +324,8 @@ def run_session(ctx, fzf, plan):
                     pane = pane_of(s)
                 ix.update()
                 sig1 = [(e["ev"], e.get("version")) for e in ix.pv if e["ev"] != "pv.display"]
-                if sig1 != sig0 or analyse(ix.pv, kinds, time.time()) != state:
-                    if time.time() > deadline:
+                if state != "unsettled" and (sig1 != sig0 or analyse(ix.pv, kinds, time.time()) != state):
+                    if time.time() > deadline + 60:
                         raise Infra("session %s keeps moving" % plan.label)
                     continue
                 cur = get["current"]["index"] if get.get("current") else -1
